@@ -193,8 +193,8 @@ impl<T: RealNumber + ScalarOperand + AddAssign + SubAssign + MulAssign + DivAssi
     }
 
     fn to_row_vector(self) -> Self::RowVector {
-        let vec_size = self.nrows() * self.ncols();
-        self.into_shape(vec_size).unwrap()
+        // `into_shape` follows the memory order, which is not row-major after a transpose
+        self.iter().copied().collect()
     }
 
     fn get(&self, row: usize, col: usize) -> T {
@@ -381,7 +381,11 @@ impl<T: RealNumber + ScalarOperand + AddAssign + SubAssign + MulAssign + DivAssi
     }
 
     fn reshape(&self, nrows: usize, ncols: usize) -> Self {
-        self.clone().into_shape((nrows, ncols)).unwrap()
+        // `into_shape` follows the memory order, which is not row-major after a transpose
+        self.as_standard_layout()
+            .into_owned()
+            .into_shape((nrows, ncols))
+            .unwrap()
     }
 
     fn copy_from(&mut self, other: &Self) {
